@@ -73,6 +73,37 @@ func (p *Program) declResults(prop string, cfg *PropConfig, results []*FuncResul
 			continue
 		}
 		switch d.Kind {
+		case "jsonname":
+			parts := strings.Split(d.Name, ".")
+			var st *types.Struct
+			if len(parts) == 3 {
+				if tp := p.pkgByName(parts[0]); tp != nil {
+					if tn, ok := tp.Scope().Lookup(parts[1]).(*types.TypeName); ok {
+						st, _ = tn.Type().Underlying().(*types.Struct)
+					}
+				}
+			}
+			if st == nil {
+				problems = append(problems, fmt.Sprintf("jsonname %s: no such struct type in the loaded program", d.Name))
+				continue
+			}
+			found := false
+			for i := 0; i < st.NumFields(); i++ {
+				if st.Field(i).Name() != parts[2] {
+					continue
+				}
+				found = true
+				name := strings.Split(reflect.StructTag(st.Tag(i)).Get("json"), ",")[0]
+				if name == "" {
+					name = st.Field(i).Name()
+				}
+				if name != d.Spec {
+					problems = append(problems, fmt.Sprintf("jsonname %s: the field is carried as %q, the API names it %q: a client's %q is ignored", d.Name, name, d.Spec, d.Spec))
+				}
+			}
+			if !found {
+				problems = append(problems, fmt.Sprintf("jsonname %s: no such field", d.Name))
+			}
 		case "jsonfields":
 			parts := strings.SplitN(d.Name, ".", 2)
 			var st *types.Struct
